@@ -583,6 +583,23 @@ def entails(pc, cond, pol=True, assumptions=(), timeout_ms=3000):
     return rs == "unsat"
 
 
+def counterexample(pc, cond, pol=True, assumptions=(), timeout_ms=3000):
+    """('unsat', None) if assumptions & pc => (cond == pol); ('sat', {atom index: value}) with a model of the negation; ('unknown', None)"""
+    z = Z()
+    fs = []
+    atoms = set()
+    for a, b in list(assumptions) + list(pc) + [(cond, not pol)]:
+        f, side = z.cond(a, b)
+        fs.append(f)
+        fs += side
+        cond_atoms(a, atoms)
+    fs += atom_axioms(z, atoms)
+    rs, m, _ = check(fs, timeout_ms, want_model=True)
+    if rs == "sat":
+        return rs, model_values(z, m)
+    return rs, None
+
+
 def sup_threshold(pc, term, candidates, assumptions=()):
     """smallest candidate T with pc => term <= T (None if none is implied)"""
     for c in candidates:
